@@ -19,6 +19,7 @@ import json
 import random
 import sys
 import types
+import threading
 import warnings
 
 from vf import bindcase as bc
@@ -252,11 +253,49 @@ def normalise_exc(e):
 _late_counter = [0]
 
 
+_tls = threading.local()
+THREAD_SAFE_WARNINGS = [False]
+
+
+def thread_safe_warnings():
+    """warnings.catch_warnings swaps process-global state and is not usable from concurrent threads (two
+    overlapping recorders steal each other's warnings): C19 installs one process-wide recorder that files
+    each warning under the thread that raised it."""
+    if THREAD_SAFE_WARNINGS[0]:
+        return
+    THREAD_SAFE_WARNINGS[0] = True
+    warnings.simplefilter("always")
+
+    def record(message, category, filename, lineno, file=None, line=None):
+        rec = getattr(_tls, "rec", None)
+        if rec is not None:
+            rec.append(category)
+
+    warnings.showwarning = record
+
+
+class _ThreadRecorder:
+    def __enter__(self):
+        _tls.rec = []
+        return _tls.rec
+
+    def __exit__(self, *exc):
+        _tls.rec = None
+        return False
+
+
+def _recorder():
+    if THREAD_SAFE_WARNINGS[0]:
+        return _ThreadRecorder()
+    return warnings.catch_warnings(record=True)
+
+
 def run_op(inst: Instances, op, objs, late_state):
     """-> outcome tuple comparable across executions."""
     kind = op[0]
-    with warnings.catch_warnings(record=True) as rec:
-        warnings.simplefilter("always")
+    with _recorder() as rec:
+        if not THREAD_SAFE_WARNINGS[0]:
+            warnings.simplefilter("always")
         try:
             if kind == "parse":
                 _, doc, cls, handler, with_map = op
